@@ -3,6 +3,11 @@
 import json, os, subprocess
 
 CLAIMS = {
+ "C20": dict(
+   category="exploration", design_ref="DESIGN.md §5 C20",
+   technique="generated concurrent workloads (rapid draws the per-goroutine operation sequences, GOMAXPROCS and yield points) on shared objects under the Go race detector, with every goroutine's results compared with sequentially pre-computed results",
+   text="Objects are created once and shared: nodes of every implementation with their representation views, plain and reader-backed bytes nodes, a compiled selector, a traversal Config and LinkSystem over a read-only store, a type system, bindnode and generated prototypes, the default codec registry. 2-24 goroutines then run drawn sequences of read-only operations (reads, DeepEqual, Copy, encode, ComputeLink, Load/LoadRaw, WalkAdv/WalkMatching/Get with the shared selector and Config, building from shared prototypes, Wrap/Prototype with explicit and inferred schemas, registry look-ups, schema type methods, selector compilation). The binary is built with -race: any race report fails the run; every result must equal the sequential expectation; no goroutine may panic.",
+   note="Schedules are sampled, not enumerated: the race detector makes data races largely independent of the interleaving that happened, but atomicity violations without a race need the bad interleaving to occur. Failures are not deterministically replayable; the replay file is the operation matrix plus the race report."),
  "C19": dict(
    category="exploration", design_ref="DESIGN.md §5 C19",
    technique="property-based testing (rapid): Go types assembled with reflect from the supported shape vocabulary for generated schemas, an independent reflection walk as oracle, Wrap/Prototype/Unwrap/Marshal/Unmarshal round trips, an integer-range table, and generated histories of binding calls on named types with inferred schemas",
